@@ -35,6 +35,12 @@ ASSUMPTIONS = [
     "parameters where the two finite-difference step sizes disagree (kinks of |.| in the cost term, order statistics) are skipped and counted",
     "the finite-difference oracle differentiates the very function the library evaluates (so a refactored-but-equal forward cannot raise an alarm)",
 ]
+ANCHORS = ['pfhedge.nn.modules.hedger:Hedger.compute_hedge',
+           'pfhedge.nn.functional:pl',
+           'pfhedge._utils.hook:save_prev_output',
+           'pfhedge.nn.modules.hedger:Hedger.compute_loss',
+           'pfhedge.nn.modules.hedger:Hedger.price',
+           'pfhedge.nn.functional:quadratic_cvar']
 DECIDING = ["grad.matches_fd", "nograd.no_graph", "grad.enable_grad_has_graph"]
 REQUIRED_BRANCHES = ["branch.stepwise", "branch.vectorised", "cost>0", "criterion.QuadraticCVaR.concentrated", "mode.eval", "mode.train",
                      "output_activation.saves_output", "H>1"]
